@@ -218,6 +218,7 @@ VersWfC17(ev) ==
   ELSE IF p.cons # ev.cons THEN rec("trace-inconsistent", FALSE)
   ELSE IF ~wf THEN (IF ev.err /\ ~ev.ok THEN {} ELSE rec(IF ev.err THEN "true-with-error" ELSE "ill-formed-accepted", FALSE))
   ELSE IF ev.err THEN rec("well-formed-rejected", TRUE)
+  ELSE IF p.scheme = "pypi" /\ ev.probe \in PypiPreProbes THEN {}
   ELSE IF distinct /\ Alternates(cs) /\ ev.ok # VDen(cs, ppos) THEN rec("routing", VDen(cs, ppos))
   ELSE {}
 
